@@ -313,6 +313,48 @@ def run(ctx):
                     )
                     break
     led.count("identity_tests", n_is)
+    # Python 2 does not derive != from __eq__: for a class that defines __eq__ without __ne__, `a != b`
+    # compares identities there, values on Python 3
+    if py2:
+        lacking = set()
+        for name, m in sorted(ctx.repo.modules.items()):
+            for c in m.classes.values():
+                if "__eq__" in c.methods and "__ne__" not in c.methods:
+                    lacking.add(c.name)
+        n_ne = 0
+        for name, m in sorted(ctx.repo.modules.items()):
+            for f in m.all_functions():
+                objs = {}
+                for x in ast.walk(f.node):
+                    if isinstance(x, ast.Assign) and len(x.targets) == 1 and isinstance(x.targets[0], ast.Name) and isinstance(x.value, (ast.Call, ast.IfExp)):
+                        calls = [x.value] if isinstance(x.value, ast.Call) else [y for y in (x.value.body, x.value.orelse) if isinstance(y, ast.Call)]
+                        for cl in calls:
+                            fn = cl.func
+                            cn = None
+                            if isinstance(fn, ast.Name):
+                                r = ctx.repo.resolve_global(m, fn.id)
+                                if r and r[0] == "class":
+                                    cn = r[1].name
+                            elif isinstance(fn, ast.Attribute) and fn.attr == "from_rh_vector":
+                                cn = "CVSS"
+                            if cn and (cn in lacking or cn == "CVSS"):
+                                objs[x.targets[0].id] = cn
+                if not objs:
+                    continue
+                for x in ast.walk(f.node):
+                    if isinstance(x, ast.Compare) and any(isinstance(op, ast.NotEq) for op in x.ops):
+                        ops_ = [x.left] + list(x.comparators)
+                        hit = [o.id for o in ops_ if isinstance(o, ast.Name) and o.id in objs]
+                        n_ne += 1
+                        if hit:
+                            led.violation(
+                                "C20.ne",
+                                "%s::%s" % (f.qualname, short(x)),
+                                m.where(x),
+                                "`!=` on a %s object: the class defines __eq__ but no __ne__, so on Python 2.7 the comparison is by "
+                                "identity (always true for distinct objects) and by value on Python 3" % objs[hit[0]],
+                            )
+        led.count("ne_comparisons_in_object_functions", n_ne)
     # regular expressions: Unicode-dependent matching differs between 2.7 and 3.x
     n_rx = 0
     for m, n, pat, flags in PC.regex_calls(ctx):
